@@ -167,7 +167,7 @@ def run(ctx):
     objects = [(n, o) for n, o in zoo() if n not in ("method",)]
     import numpy as _np
 
-    objects += [("none-key", {None: 1, "a": [type(None), {None: None}]}), ("method-wrapper", [1, {"k": _np.float64(1.5).__add__}]), ("user-plain", U.Plain(1, [2, {"k": (3, 4)}])), ("user-nested", {"a": [U.Plain(1, 2), U.WithGetstate(3)]}),
+    objects += [("none-key", {None: 1, "a": [type(None), {None: None}]}), ("method-wrapper", [1, {"k": _np.float64(1.5).__add__}]), ("enum-member", {"c": U.Color.RED, "l": [U.Color.RED]}), ("user-plain", U.Plain(1, [2, {"k": (3, 4)}])), ("user-nested", {"a": [U.Plain(1, 2), U.WithGetstate(3)]}),
                 ("user-slots", U.WithSlots(1, 2)), ("unpersistable-generator-attr", U.Plain(1, memoryview(b"ab")) if False else U.Plain(1, {1: "a", "1": "b"})),
                 ("unpersistable-dok", __import__("scipy.sparse", fromlist=["x"]).dok_matrix((2, 2))),
                 ("unpersistable-deep", [1, {"k": [U.RaisesGetstate()]}] if _picklable(U.RaisesGetstate()) else [1, {"k": {1: 0, "1": 1}}])]
